@@ -220,7 +220,7 @@ def classify(fam, lab, o, why):
             what = lab.get("f") or lab.get("variant") or lab.get("mk") or ""
             return "alloc-unattributed-%s-%s" % (st, _slug(str(what)))
         return "alloc-" + _slug(site)
-    if o["out"] == "hang":
+    if o["out"] == "hang" or o.get("msg", "").startswith("SIGQUIT"):
         return "hang-%s-%s" % (fam, _slug(lab.get("pos", st)))
     if site == "framer.readInetAdressOnly":
         opcode_event = str(lab.get("kind", "")).startswith("EVENT") or (lab.get("f") == "header.opcode" and lab.get("val") == 12)
@@ -231,7 +231,7 @@ def classify(fam, lab, o, why):
         return "unmarshal-negative-collection-length"
     if site == "readBytes" and cls == "slice-bounds":
         return {"unmarshalTuple": "unmarshal-tuple-field-overrun", "unmarshalUDT": "unmarshal-udt-field-overrun"}.get(via, "unmarshal-field-overrun-" + _slug(via))
-    if site == "framer.readInt" and cls == "not-enough-bytes":
+    if site == "framer.readInt" and via == "framer.readBytesInternal" and cls == "not-enough-bytes":
         return "iter-short-rows-panic"
     if site == "unmarshalDate":
         return "unmarshal-date-short"
@@ -317,8 +317,6 @@ def run(ctx):
         summ = dict(ex.map(drive, ["inproc", "live"]))
     ctx.log("harness: %s" % summ)
     flaky = [x for s in summ.values() for x in (s.get("flaky") or [])]
-    if flaky:
-        raise vf.Inconclusive("a child process died while running a group of inputs none of which dies alone: %s" % flaky[:3])
 
     # ---- 3. TLC judges the observations
     CL = 1 << 30
@@ -450,6 +448,12 @@ def run(ctx):
             json.dumps(lab, separators=(",", ":"))[:300], len(lst), ", ".join("%s x%d" % kv for kv in where.most_common(6)))
         ctx.violation(key, what, dict(family=fam, label=lab, input=inp, observation=o, why=why, stack=stack[:3000],
                                       others=[dict(label=x[1], stage=x[3]["st"]) for x in lst[1:12]]))
+    if flaky and not agg:
+        # never "held" with an unexplained death; (with violations found the deaths are usually their aftermath:
+        # the harness goes on after a recovered panic of the application's goroutine)
+        raise vf.Inconclusive("a child process died while running a group of live inputs none of which dies alone: %s" % flaky[:3])
+    if flaky:
+        ctx.notes.append("child deaths not attributable to a single input (aftermath of recovered panics?): %s" % flaky[:5])
     if stuck:
         ctx.add_drift("Session.Close did not return within 5 s after %d live cases (a C06/C17 matter, not judged here), e.g. input %d" % (
             len(stuck), stuck[0]))
